@@ -30,6 +30,31 @@ PROBES = {
 CXX = ["-pthread"]
 
 
+def _split(paths, outprefix, per=120000):
+    """Re-cut the trace files into pieces of at most `per` events (one TLC each); small files are merged."""
+    outs, buf, n = [], [], 0
+
+    def flush():
+        nonlocal buf, n
+        if buf:
+            op = "%s_%d.ndjson" % (outprefix, len(outs))
+            with open(op, "wb") as g:
+                g.writelines(buf)
+            outs.append(op)
+            buf, n = [], 0
+    for p in paths:
+        with open(p, "rb") as f:
+            for line in f:
+                buf.append(line)
+                n += 1
+                if n >= per:
+                    flush()
+    flush()
+    if not outs:
+        raise vlib.ModelFailure("the drivers produced no events")
+    return outs
+
+
 def parts(tier):
     return [0, 1, 2, 3, 4, 5, 7, 8] + ([6] if tier == "thorough" else [])
 
@@ -106,7 +131,8 @@ def pipeline(tier, rep, calibrate=True):
                 for line in err.splitlines():
                     if line.startswith("SUMMARY") and "traps=" in line:
                         traps += int(line.rsplit("traps=", 1)[1])
-        tv[impl] = vlib.tv_parallel("MdTrace.tla", "MdTrace.cfg", [t[1] for t in tasks], "md_tv_%s_%s" % (impl, tier), par=8, heap="3g")
+        chunks = _split([t[1] for t in tasks], os.path.join(d, "md_%s_%s_c" % (impl, tier)), 40000 if tier == "quick" else 150000)
+        tv[impl] = vlib.tv_parallel("MdTrace.tla", "MdTrace.cfg", chunks, "md_tv_%s_%s" % (impl, tier), par=8, heap="3g")
     rep.add_tv("Md", tv["etl"], len(gen), "every exported extents tuple / stride vector / span triple on every compiled pattern")
     m = rep.cov["modules"]["Md"]
     m["not_drivable"] = nd
